@@ -23,7 +23,8 @@ OBJECT_LISTS = {"layers": "layer", "classes": "class", "styles": "style", "symbo
                 "composites": "composite", "joins": "join"}
 KV_BLOCKS = ("metadata", "validation", "values", "connectionoptions")
 REPEATED = ("processing", "formatoption", "include", "compfilter")
-WORDS = ["roads", "Layer 1", "a.b", "x_y", "café", "中文", "value-7", "semi;colon", "two  spaces", "it is", "100%", "tab\there"]
+WORDS = ["roads", "Layer 1", "a.b", "x_y", "café", "中文", "value-7", "semi;colon", "two  spaces", "it is", "100%", "tab\there",
+         "it's", "'primary' and 'secondary'", "'x'", '"a" or "b"', 'say "hi"', "(not an expression", "[half", "#hash", "/slash"]
 
 
 # ------------------------------------------------------------------ the independent reader
